@@ -554,11 +554,14 @@ def _pre_bp_plus_minus_one(site):
     if cl is None:
         return False
     for (b, i, kind, payload, dproj) in defuse(body).defs.get(cl['l'], []):
-        if kind == 'assign' and payload['k'] == 'binop' and payload['op'] in ('AddWithOverflow', 'SubWithOverflow') and payload.get('aty') == 'i32':
-            if op_const_int(payload['b']) != 1:
+        if kind == 'assign' and payload['k'] == 'binop' and payload['op'] in ('AddWithOverflow', 'SubWithOverflow', 'MulWithOverflow') and payload.get('aty') == 'i32':
+            k = op_const_int(payload['b'])
+            if (payload['op'] == 'MulWithOverflow' and k != 2) or (payload['op'] != 'MulWithOverflow' and k != 1):
                 return False
             o = single_origin(trace_operand(body, payload['a']))
-            # through unwrap of the lookup result
+            if o is not None and o.kind == 'binop' and o.data[2]['op'] == 'MulWithOverflow' and op_const_int(o.data[2]['b']) == 2 and o.proj == (('f', 0),):
+                o = single_origin(trace_operand(body, o.data[2]['a']))
+            # through unwrap of the lookup result: field 0 (the precedence) of the registry entry
             if o is not None and o.kind == 'callres' and o.proj and o.proj[-1] == ('f', 0):
                 return True
     return False
